@@ -63,7 +63,11 @@ fn histories(n: usize, tier: &str, rng: &mut Rng) -> Vec<String> {
         for o in ["", "N", "B", "L", "G", "E", "H"].iter() { out.push(format!("{}{}", canon, o)); if alt != canon { out.push(format!("{}{}", alt, o)); } }
         if f + b == n { out.push(format!("{}NBNL", canon)); }   // pulls on an exhausted iterator
     } }
-    let extra = if tier == "thorough" { 3000 } else { 200 };
+    // tier "miriq" (quick): a handful of histories per type, all conversions and views
+    if tier == "miriq" { out.truncate(0); for h in ["", "N", "B", "NB", "BN", "NG", "BE", "NNH"].iter() { out.push(h.to_string()); } if n <= 3 { out.push("N".repeat(n)); out.push("B".repeat(n) + "NL"); } return out; }
+    // tier "miri": the run is interpreted (undefined-behaviour detector), so keep the state sweep of the small types only
+    if tier == "miri" && n > 8 { out.truncate(0); for f in [0usize, 1, n / 2, n].iter() { for b in [0usize, 1, n - *f].iter() { if f + b <= n { for o in ["", "N", "B", "G"].iter() { out.push(format!("{}{}{}", "N".repeat(*f), "B".repeat(*b), o)); } } } } }
+    let extra = if tier == "thorough" { 3000 } else if tier == "miri" { 10 } else { 200 };
     for _ in 0..extra { let len = rng.below(2 * n as u64 + 6) as usize; out.push((0..len).map(|_| ['N', 'B', 'L', 'G', 'E', 'H', 'N', 'B'][rng.below(8) as usize]).collect()); }
     out
 }
@@ -139,6 +143,9 @@ macro_rules! alias_ty { ($w:expr, $ty:expr, $V:ident, $n:expr; $($f:tt)+) => {{
     drop(v); take_drops();
 }}; }
 
+macro_rules! mat_slice { (rows, $m:ident) => { $m.as_row_slice() }; (cols, $m:ident) => { $m.as_col_slice() } }
+macro_rules! mat_slice_mut { (rows, $m:ident) => { $m.as_mut_row_slice() }; (cols, $m:ident) => { $m.as_mut_col_slice() } }
+macro_rules! mat_ptr { (rows, $m:ident) => { $m.as_row_ptr() }; (cols, $m:ident) => { $m.as_col_ptr() } }
 macro_rules! mat_ty { ($w:expr, $name:expr, $M:ty, $n:expr, $lines:ident, $major:expr, [$($ij:tt)+], [$($i:tt)+]) => {{
     let n: usize = $n; let nn = n * n;
     // storage order = the matrix's own lines; row-major: row arrays keep, col arrays transpose (and conversely)
@@ -161,6 +168,22 @@ macro_rules! mat_ty { ($w:expr, $name:expr, $M:ty, $n:expr, $lines:ident, $major
     take_drops();
     { let mut t = toks(nn).into_iter(); let arr: [[Tok; $n]; $n] = std::array::from_fn(|_| std::array::from_fn(|_| t.next().unwrap())); let m = <$M>::from_col_arrays(arr); let d = take_drops(); writeln!($w, "conv {}_from_col_arrays {} {} => {}|{}", $name, nn, col_arg, ids(&store(&m)), ids(&d)).unwrap(); }
     take_drops();
+    // slice / pointer views alias the matrix's own storage, one entry per element in storage order
+    {
+        let mut m: $M = mkv(nn);
+        let addrs: Vec<*const Tok> = m.$lines.iter().flat_map(|l| l.iter().map(|t| t as *const Tok)).collect();
+        let find = |p: *const Tok| -> String { match addrs.iter().position(|a| *a == p) { Some(k) => k.to_string(), None => "?".to_string() } };
+        let line = |s: &[Tok]| -> String { if s.len() != nn { format!("len{}", s.len()) } else { s.iter().map(|t| find(t as *const Tok)).collect::<Vec<_>>().join(".") } };
+        writeln!($w, "alias {}_as_slice {} - => {}", $name, nn, line(mat_slice!($lines, m))).unwrap();
+        let ms: Vec<*const Tok> = mat_slice_mut!($lines, m).iter_mut().map(|t| { let q: *const Tok = t; q }).collect();
+        writeln!($w, "alias {}_as_mut_slice {} - => {}", $name, nn, ms.iter().map(|q| find(*q)).collect::<Vec<_>>().join(".")).unwrap();
+        let p0 = mat_ptr!($lines, m);
+        writeln!($w, "alias {}_as_ptr {} - => {}", $name, nn, (0..nn).map(|k| find(unsafe { p0.add(k) })).collect::<Vec<_>>().join(".")).unwrap();
+        // every element read through the view (an interpreter that tracks provenance checks these accesses)
+        let sum: u32 = mat_slice!($lines, m).iter().map(|t| t.id).sum();
+        let _ = sum;
+        drop(m); take_drops();
+    }
 }}; }
 
 pub fn run(tier: &str, seed: u64) {
@@ -173,9 +196,15 @@ pub fn run(tier: &str, seed: u64) {
     all!("extent2", Extent2, 2, [0 1]; w h); all!("extent3", Extent3, 3, [0 1 2]; w h d);
     all!("rgb", Rgb, 3, [0 1 2]; r g b); all!("rgba", Rgba, 4, [0 1 2 3]; r g b a); all!("uv", Uv, 2, [0 1]; u v); all!("uvw", Uvw, 3, [0 1 2]; u v w);
     all!("vec8", Vec8, 8, [0 1 2 3 4 5 6 7]; 0 1 2 3 4 5 6 7);
+    if tier != "miriq" {   // the interpreted quick run leaves the 16/32/64-lane types to the other tiers
     all!("vec16", Vec16, 16, [0 1 2 3 4 5 6 7 8 9 10 11 12 13 14 15]; 0 1 2 3 4 5 6 7 8 9 10 11 12 13 14 15);
     all!("vec32", Vec32, 32, [0 1 2 3 4 5 6 7 8 9 10 11 12 13 14 15 16 17 18 19 20 21 22 23 24 25 26 27 28 29 30 31]; 0 1 2 3 4 5 6 7 8 9 10 11 12 13 14 15 16 17 18 19 20 21 22 23 24 25 26 27 28 29 30 31);
     all!("vec64", Vec64, 64, [0 1 2 3 4 5 6 7 8 9 10 11 12 13 14 15 16 17 18 19 20 21 22 23 24 25 26 27 28 29 30 31 32 33 34 35 36 37 38 39 40 41 42 43 44 45 46 47 48 49 50 51 52 53 54 55 56 57 58 59 60 61 62 63]; 0 1 2 3 4 5 6 7 8 9 10 11 12 13 14 15 16 17 18 19 20 21 22 23 24 25 26 27 28 29 30 31 32 33 34 35 36 37 38 39 40 41 42 43 44 45 46 47 48 49 50 51 52 53 54 55 56 57 58 59 60 61 62 63);
+    }
+    // remaining unsafe code of the matrices: Display reads elements with get_unchecked (executed for the interpreted run; prints nothing)
+    { let a = format!("{}{}{}", rm::Mat2::<i32>::identity(), rm::Mat3::<i32>::identity(), rm::Mat4::<i32>::identity());
+      let b = format!("{}{}{}", cm::Mat2::<i32>::identity(), cm::Mat3::<i32>::identity(), cm::Mat4::<i32>::identity());
+      assert_eq!(a, b); }
     mat_ty!(&mut w, "mat2r", rm::Mat2<Tok>, 2, rows, "r", [0 1 2 3], [0 1]); mat_ty!(&mut w, "mat3r", rm::Mat3<Tok>, 3, rows, "r", [0 1 2 3 4 5 6 7 8], [0 1 2]);
     mat_ty!(&mut w, "mat4r", rm::Mat4<Tok>, 4, rows, "r", [0 1 2 3 4 5 6 7 8 9 10 11 12 13 14 15], [0 1 2 3]);
     mat_ty!(&mut w, "mat2c", cm::Mat2<Tok>, 2, cols, "c", [0 1 2 3], [0 1]); mat_ty!(&mut w, "mat3c", cm::Mat3<Tok>, 3, cols, "c", [0 1 2 3 4 5 6 7 8], [0 1 2]);
